@@ -128,7 +128,14 @@ def check_date(ck, date, memo, seen):
         if len(ck.samples) < 10:
             ck.samples.append({"target": t, "date": str(date), "claim": ">= 0", "proved": f"cone from root inputs (single-person household): {r}"})
         if r == "unsat":
-            ck.discharged += 1
+            # also not negative for the multi-person household templates?
+            hit, undecided = template_negative(ck, dag, date, t)
+            if hit:
+                continue
+            if undecided:
+                ck.inconclusive.append(f"{t}@{date}: household templates {undecided} undecided")
+            else:
+                ck.discharged += 1
         elif r == "sat":
             row = {a: R.model_value(m, s) for a, s in cone.syms.items()}
             from gsv.checks import c08
@@ -142,6 +149,48 @@ def check_date(ck, date, memo, seen):
             ck.inconclusive.append(f"{t}@{date}: non-negativity on the cone: {r}")
     caps(ck, dag, date, facts, seen)
     ck.extra.setdefault("nodes_with_sign_fact", {})[str(date)] = f"{sum(1 for v in facts.values() if v)}/{len(facts)}"
+
+
+TEMPLATES = [(2, 1), (1, 3), (2, 5), (2, 10)]
+
+
+def template_negative(ck, dag, date, t):
+    """re-ask `target < 0` on cones from root inputs of household templates; a model is replayed.
+    returns (violation reported, [templates that stayed undecided])"""
+    import warnings
+    undecided = []
+    for na, nc in TEMPLATES:
+        try:
+            cone = rulebank.TemplateCone(dag, na, nc, date.year)
+            v, ctxn = cone.value(t)
+        except (R.Unsupported, ValueError, KeyError) as e:
+            ck.extra.setdefault("template_cone_not_encoded", {})[f"{t}/{na}+{nc}"] = str(e)[:80]
+            undecided.append(f"{na}+{nc}")
+            continue
+        neg = z3.Or([R.term_of(x, float) < -EPS for x in v.e])
+        r, m = ck.solve(cone.valid() + cone.ancestors_ok(t) + [neg], 120)
+        if r == "unsat":
+            continue
+        if r != "sat":
+            undecided.append(f"{na}+{nc}")
+            continue
+        df = cone.dataframe(m)
+        from gettsim import compute_taxes_and_transfers
+        P, F = gt.env(date)
+        with warnings.catch_warnings():
+            warnings.simplefilter("ignore")
+            try:
+                out = compute_taxes_and_transfers(df, P, F, targets=[t])
+                vals = [float(x) for x in out[t].tolist()]
+            except Exception as e:   # noqa: BLE001
+                vals = f"raises {type(e).__name__}"
+        what = f"{t} at {date} is negative for a valid household of {na} adult(s) and {nc} child(ren): {vals}"
+        if not isinstance(vals, str) and min(vals) < -5e-7:
+            ck.violation(["negative", t], what, {"kind": "household", "date": str(date), "node": t, "adults": na, "children": nc,
+                                                 "data": {c: [x.item() if hasattr(x, "item") else x for x in df[c].tolist()] for c in df.columns}})
+            return True, undecided
+        common.spurious("C16", what)
+    return False, undecided
 
 
 def caps(ck, dag, date, facts, seen):
@@ -283,6 +332,17 @@ def run(tier):
 def replay(path):
     d = json.load(open(path))["replay"]
     from gsv.checks import c08
+    if d["kind"] == "household":
+        import pandas as pd
+        import warnings
+        from gettsim import compute_taxes_and_transfers
+        P, F = gt.env(datetime.date.fromisoformat(d["date"]))
+        with warnings.catch_warnings():
+            warnings.simplefilter("ignore")
+            out = compute_taxes_and_transfers(pd.DataFrame(d["data"]), P, F, targets=[d["node"]])
+        vals = [float(x) for x in out[d["node"]].tolist()]
+        print(vals)
+        return 1 if min(vals) < -5e-7 else 0
     if d["kind"] == "slice":
         dag = symdag.Dag(datetime.date.fromisoformat(d["date"]))
         out = concrete_slice(dag, d["node"], d["row"])
